@@ -36,6 +36,9 @@ type ConcWorld struct {
 	sel           selector.Selector
 	cfg           *traversal.Config
 	baseline      map[string]string
+	gen           schema.TypedNode // a node of freshly generated code (only in the runner built with the generated package)
+	genProto      datamodel.NodePrototype
+	genVal        model.Value
 	// BaselineFinding: set when the sequential reference run itself misbehaved
 	BaselineFinding *run.Finding
 }
@@ -82,6 +85,37 @@ func NewConcWorld() (*ConcWorld, error) {
 	w.cfg = &traversal.Config{LinkSystem: w.gr.LS, LinkTargetNodePrototypeChooser: func(datamodel.Link, linking.LinkContext) (datamodel.NodePrototype, error) {
 		return basicnode.Prototype.Any, nil
 	}}
+	if GenProtos != nil {
+		// type T0 of the catalogue (SchemaCat!R10): struct {f S6 {a Int, b Int, c optional String}, g optional U1 (keyed union),
+		// h nullable [nullable String]} with renames
+		pp, ok := GenProtos["T0"]
+		if !ok {
+			return nil, fmt.Errorf("the generated package has no type T0")
+		}
+		bs := func(s string) []int { return model.Ints([]byte(s)) }
+		str := func(s string) model.Value {
+			return model.Value{K: "string", A: bs(s), Ks: [][]int{}, Vs: []model.Value{}}
+		}
+		I := func(n int) model.Value {
+			return model.Value{K: "int", A: []int{0, n}, Ks: [][]int{}, Vs: []model.Value{}}
+		}
+		null := model.Value{K: "null", A: []int{}, Ks: [][]int{}, Vs: []model.Value{}}
+		w.genVal = model.Value{K: "map", A: []int{}, Ks: [][]int{bs("f"), bs("g"), bs("h")}, Vs: []model.Value{
+			{K: "map", A: []int{}, Ks: [][]int{bs("a"), bs("b"), bs("c")}, Vs: []model.Value{I(1), I(2), str("x")}},
+			{K: "map", A: []int{}, Ks: [][]int{bs("String")}, Vs: []model.Value{str("s")}},
+			{K: "list", A: []int{}, Ks: [][]int{}, Vs: []model.Value{str("a"), null}}}}
+		w.genProto = pp[0]
+		nb := w.genProto.NewBuilder()
+		if err := (model.Conc{}).BuildInto(nb, w.genVal); err != nil {
+			return nil, fmt.Errorf("building the shared generated node: %w", err)
+		}
+		tn, ok := nb.Build().(schema.TypedNode)
+		if !ok {
+			return nil, fmt.Errorf("the generated node is not a typed node")
+		}
+		w.gen = tn
+		ConcOps = append(ConcOps, "read-gen", "read-gen-repr", "encode-gen", "copy-gen", "build-gen")
+	}
 	// The sequential reference: every operation alone, twice over the whole list.  An operation that fails
 	// here, or whose result differs the second time round (some EARLIER operation changed a shared object),
 	// already breaks "each obtains the same results as it would running alone": it is reported as a finding
@@ -226,6 +260,28 @@ func (w *ConcWorld) Do(op string, g int, fresh *freshStruct) (string, error) {
 			return fmt.Sprintf("%d %s", x, y), nil
 		}
 		return "36 ada", nil
+	case "read-gen":
+		return projStr(w.gen)
+	case "read-gen-repr":
+		return projStr(w.gen.Representation())
+	case "encode-gen":
+		var b1 bytes.Buffer
+		if err := dagcbor.Encode(w.gen.Representation(), &b1); err != nil {
+			return "", err
+		}
+		return fmt.Sprintf("%x", b1.Bytes()), nil
+	case "copy-gen":
+		nb := basicnode.Prototype.Any.NewBuilder()
+		if err := datamodel.Copy(w.gen, nb); err != nil {
+			return "", err
+		}
+		return projStr(nb.Build())
+	case "build-gen":
+		nb := w.genProto.NewBuilder()
+		if err := (model.Conc{}).BuildInto(nb, w.genVal); err != nil {
+			return "", err
+		}
+		return projStr(nb.Build())
 	case "ts-clone":
 		// copy a type out of the shared, finished type system and look at both the copy and the original
 		orig := w.ts.TypeByName("HTeam").(*schema.TypeStruct)
